@@ -9,16 +9,13 @@ def prepare():
     import universe
     universe.build("quick")
     universe.build_general("quick")
+    universe.build_holes("quick")
 
 
 def run(tier, seed, t0):
     nconf, stride = (10, 24) if tier == "quick" else (16, 3)
     v, cov, shapes = pc.run_pairs(PID, tier, seed, "int,con", nconf, stride, only_nonuniform=True)
-    v, gcov, _ = pc.run_pairs(PID, tier, seed, "int,con", nconf, stride, only_nonuniform=True, general=True, v=v)
-    cov["general_slopes"] = pc.general_cov(gcov)
-    cov["evaluations"] += gcov["evaluations"]
-    cov["distinct_nontrivial"] += gcov["distinct_nontrivial"]
-    cov["known_finding_hits"] = v.known_hits
+    v = pc.extra_universes(PID, tier, seed, "int,con", nconf, stride, v, cov, only_nonuniform=True)
     rc = v.finish()
     cov["rule"] = pc.UNIVERSE_RULE + "; C12 compares, for every pair, the real answers over all its configurations (8 lattice symmetries, translations incl. Move, power-of-two scalings, start vertex, direction, closing vertex): a pair whose answers are not all equal is a violation unless every deviating configuration is a listed known finding that agrees with the L2 transcription (those algorithms are encoding-sensitive)"
     cov["exhaustive"] = stride == 1
